@@ -54,6 +54,8 @@ Record request := {
   r_op : Z;                            (* batch item operation (enum value) *)
   r_uid : option string;               (* payload unique identifier; None = absent *)
   r_uids : list string;                (* payload.unique_identifiers (DeriveKey) *)
+  r_each_ok : list bool;               (* oracle input, DeriveKey: base i passes the suitability checks made right after
+                                          it is loaded (type, DeriveKey mask bit), before the next base is loaded *)
   r_wrap : option string;              (* Get: encryption_key_information.unique_identifier of the wrapping specification *)
   r_pre_ok : bool;                     (* the handler's checks that precede its first choke point pass *)
   r_post_ok : bool;                    (* oracle input: everything after the granted loads succeeds *)
@@ -66,6 +68,8 @@ Inductive outcome :=
 | ONotFound (msg : string)       (* ItemNotFound of _get_object_type, or the masked failure of a guarded site *)
 | OPreFail                       (* refused before any object was loaded *)
 | OPostFail                      (* every addressed object was loaded under a grant; the operation failed afterwards *)
+| OMidFail                       (* a check on an object already loaded under a grant failed before the remaining
+                                    objects were loaded (the loop of DeriveKey) *)
 | OSuccess (ids : list string)   (* success; Locate: identifiers listed; creators: identifiers issued *)
 | OUnsupported                   (* operation not dispatched *)
 | OStuck.                        (* oracle inputs inconsistent with the model (never on a real run) *)
@@ -117,18 +121,23 @@ Definition mask (g : site_guard) (out : outcome) : outcome :=
   match g with GNone => out | GMaskNotFound m => ONotFound m end.
 
 Fixpoint load_all (P : policies) (id : identity) (s : store) (op : Z) (g : site_guard)
-                  (us : list (option string)) : outcome + list obj :=
+                  (us : list (option string)) (cs : list bool) : outcome + list obj :=
   match us with
   | [] => inr []
   | u :: t =>
     match load1 P id s op u with
     | inl out => inl (mask g out)
-    | inr o => match load_all P id s op g t with
-               | inl out => inl out
-               | inr os => inr (o :: os)
-               end
+    | inr o =>
+      if negb (hd true cs) then inl OMidFail
+      else match load_all P id s op g t (tl cs) with
+           | inl out => inl out
+           | inr os => inr (o :: os)
+           end
     end
   end.
+
+Definition site_checks (src : uid_source) (r : request) : list bool :=
+  match src with UEach => r_each_ok r | _ => [] end.
 
 Record loaded := { l_objs : list obj;      (* objects loaded one by one, in order *)
                    l_listed : list obj }.  (* result of _list_objects_with_access_controls *)
@@ -138,7 +147,7 @@ Fixpoint run_sites (P : policies) (id : identity) (s : store) (ph : option strin
   match sites with
   | [] => inr {| l_objs := []; l_listed := [] |}
   | SLoad src g op :: t =>
-    match load_all P id s op g (site_uids src r ph) with
+    match load_all P id s op g (site_uids src r ph) (site_checks src r) with
     | inl out => inl out
     | inr os => match run_sites P id s ph r t with
                 | inl out => inl out
